@@ -566,6 +566,30 @@ pub fn corpus(seed: u64, n: usize) -> Vec<Case> {
             out.push(case);
         }
     }
+    // a header parameter that is never spelled canonically but occurs twice, in different letter case and with
+    // different values: whatever the crate makes of it, it has to make the same of it every time
+    let mut extra = Vec::new();
+    for (i, c) in out.iter().enumerate() {
+        if extra.len() >= 12 {
+            break;
+        }
+        let Some(pos) = c.req.headers.iter().position(|(n, v)| n.eq_ignore_ascii_case("authorization") && v.0.starts_with(b"AWS4-HMAC-SHA256 ")) else { continue };
+        let v = String::from_utf8_lossy(&c.req.headers[pos].1 .0).to_string();
+        let name = ["Credential", "SignedHeaders", "Signature"][i % 3];
+        if !v.contains(&format!("{}=", name)) {
+            continue;
+        }
+        let lower = v.replacen(&format!("{}=", name), &format!("{}=", name.to_lowercase()), 1);
+        let decoy = match i % 3 {
+            0 => "AKIADECOY0000000/20150830/eu-west-1/service/aws4_request".to_string(),
+            1 => "host;x-decoy".to_string(),
+            _ => "0".repeat(64),
+        };
+        let mut c2 = c.clone();
+        c2.req.headers[pos].1 = B::from(format!("{}, {}={}", lower, name.to_uppercase(), decoy).as_str());
+        extra.push(c2);
+    }
+    out.extend(extra);
     out
 }
 
